@@ -516,3 +516,114 @@ Proof.
   unfold find_occurrences. intros H. apply (occ_loop_ok dic _ _ _ _ _ H).
   intros sub l Hl. discriminate.
 Qed.
+
+(* ---------- find_occurrences misses no mention of a reachable cell ---------- *)
+Definition recorded (occ : list (Z * list Z)) (sub key : Z) : Prop :=
+  exists l, lookup sub occ = Some l /\ In key l.
+
+Lemma occ_append_recorded s key occ : recorded (occ_append s key occ) s key.
+Proof.
+  unfold recorded, occ_append. destruct (lookup s occ) as [l0|] eqn:Es.
+  - exists (l0 ++ [key]). rewrite lookup_update, Z.eqb_refl. split; [reflexivity|apply in_or_app; right; left; reflexivity].
+  - exists [key]. rewrite (lookup_app_fresh _ _ _ _ Es), Z.eqb_refl, Es. split; [reflexivity|left; reflexivity].
+Qed.
+
+Lemma occ_append_keeps s key occ sub k : recorded occ sub k -> recorded (occ_append s key occ) sub k.
+Proof.
+  intros [l [Hl Hk]]. unfold recorded, occ_append. destruct (lookup s occ) as [l0|] eqn:Es.
+  - rewrite lookup_update. destruct (Z.eqb s sub) eqn:E.
+    + apply Z.eqb_eq in E; subst sub. rewrite Es in Hl. injection Hl as <-.
+      exists (l0 ++ [key]). split; [reflexivity|apply in_or_app; left; exact Hk].
+    + exists l. auto.
+  - rewrite (lookup_app_fresh _ _ _ _ Es). destruct (Z.eqb s sub) eqn:E.
+    + apply Z.eqb_eq in E; subst sub. congruence.
+    + exists l. auto.
+Qed.
+
+Lemma memZ_In x l : memZ x l = true <-> In x l.
+Proof.
+  unfold memZ. rewrite existsb_exists. split.
+  - intros [y [Hy He]]. apply Z.eqb_eq in He. subst; exact Hy.
+  - intros H. exists x. split; [exact H|apply Z.eqb_refl].
+Qed.
+
+(* one visit: every sub is enqueued and recorded; nothing is forgotten; what is
+   newly on the stack is exactly what was newly enqueued *)
+Lemma occ_visit_spec key : forall subs stack enq occ stack' enq' occ',
+  occ_visit key subs stack enq occ = (stack', enq', occ') ->
+  (forall s, In s subs -> In s enq' /\ recorded occ' s key) /\
+  (forall k, In k enq -> In k enq') /\
+  (forall sub k, recorded occ sub k -> recorded occ' sub k) /\
+  (forall k, In k stack -> In k stack') /\
+  (forall k, In k enq' -> In k enq \/ In k stack') /\
+  (forall k, In k stack' -> In k stack \/ In k enq').
+Proof.
+  induction subs as [|s r IH]; intros stack enq occ stack' enq' occ' H; cbn [occ_visit] in H.
+  - injection H as <- <- <-. split; [intros x []|]. repeat split; auto.
+  - destruct (memZ s enq) eqn:Em.
+    + destruct (IH _ _ _ _ _ _ H) as [A [B [C [D [E F]]]]].
+      split; [|split; [exact B|split; [|split; [exact D|split; [exact E|exact F]]]]].
+      * intros x [Hx|Hx]; [subst x|exact (A x Hx)]. split; [apply B; apply memZ_In; exact Em|].
+        apply C. apply occ_append_recorded.
+      * intros sub k Hr. apply C. apply occ_append_keeps. exact Hr.
+    + destruct (IH _ _ _ _ _ _ H) as [A [B [C [D [E F]]]]].
+      split; [|split; [|split; [|split; [|split]]]].
+      * intros x [Hx|Hx]; [subst x|exact (A x Hx)]. split; [apply B; left; reflexivity|].
+        apply C. apply occ_append_recorded.
+      * intros k Hk. apply B. right; exact Hk.
+      * intros sub k Hr. apply C. apply occ_append_keeps. exact Hr.
+      * intros k Hk. apply D. right; exact Hk.
+      * intros k Hk. destruct (E k Hk) as [[<-|He]|Hs]; [right; apply D; left; reflexivity|left; exact He|right; exact Hs].
+      * intros k Hk. destruct (F k Hk) as [[<-|Hs]|He]; [right; apply B; left; reflexivity|left; exact Hs|right; exact He].
+Qed.
+
+(* invariant of the work list, with the set of processed cells as ghost state *)
+Definition occ_inv (dic : list (Z * mcell)) (done stack enq : list Z) (occ : list (Z * list Z)) : Prop :=
+  (forall k, In k enq -> In k stack \/ In k done) /\
+  (forall k c, In k done -> lookup k dic = Some c ->
+     forall s, In s (extract_subcells (cgeom c)) -> In s enq /\ recorded occ s k).
+
+Lemma occ_loop_complete dic : forall fuel done stack enq occ out,
+  occ_loop fuel dic stack enq occ = Ok out -> occ_inv dic done stack enq occ ->
+  exists done' enq', occ_inv dic done' [] enq' out /\ (forall k, In k enq -> In k enq').
+Proof.
+  induction fuel as [|f IH]; intros done stack enq occ out H Hinv; cbn [occ_loop] in H.
+  - destruct stack; [|discriminate]. injection H as <-. exists done, enq. auto.
+  - destruct stack as [|key rest]; [injection H as <-; exists done, enq; auto|].
+    destruct (lookup key dic) as [c|] eqn:Ek; [|discriminate].
+    destruct (occ_visit key (extract_subcells (cgeom c)) rest enq occ) as [[st' en'] occ'] eqn:Ev.
+    destruct (occ_visit_spec key _ _ _ _ _ _ _ Ev) as [A [B [C [D [E F]]]]].
+    destruct Hinv as [I1 I2].
+    destruct (IH (key :: done) st' en' occ' out H) as [done' [enq' [Hfin Hsub]]].
+    + split.
+      * intros k Hk. destruct (E k Hk) as [He|Hs]; [|left; exact Hs].
+        destruct (I1 k He) as [[<-|Hr]|Hd]; [right; left; reflexivity|left; apply D; exact Hr|right; right; exact Hd].
+      * intros k ck [<-|Hd] Hl s Hs.
+        -- rewrite Ek in Hl. injection Hl as <-. exact (A s Hs).
+        -- destruct (I2 k ck Hd Hl s Hs) as [He Hr]. split; [apply B; exact He|apply C; exact Hr].
+    + exists done', enq'. split; [exact Hfin|]. intros k Hk. apply Hsub. apply B. exact Hk.
+Qed.
+
+(* cells reachable from the level-0 cells through mentions *)
+Inductive reachable (dic : list (Z * mcell)) : Z -> Prop :=
+| reach_root k c : lookup k dic = Some c -> cuniv c = 0 -> reachable dic k
+| reach_step k c s : reachable dic k -> lookup k dic = Some c ->
+    In s (extract_subcells (cgeom c)) -> reachable dic s.
+
+Theorem find_occurrences_complete dic occ : find_occurrences dic = Ok occ ->
+  forall key c sub, reachable dic key -> lookup key dic = Some c ->
+    In sub (extract_subcells (cgeom c)) -> recorded occ sub key.
+Proof.
+  unfold find_occurrences. intros H.
+  set (roots := map fst (filter (fun kv => Z.eqb (cuniv (snd kv)) 0) dic)) in *.
+  destruct (occ_loop_complete dic _ [] (rev roots) roots [] occ H) as [done [enq [[I1 I2] Hsub]]].
+  { split; [intros k Hk; left; apply in_rev; rewrite rev_involutive; exact Hk|intros k c []]. }
+  assert (Hreach : forall k, reachable dic k -> In k done).
+  { intros k Hr. induction Hr as [k c Hl Hu|k c s Hr IHr Hl Hs].
+    - assert (Hin : In k roots).
+      { unfold roots. apply in_map_iff. exists (k, c). split; [reflexivity|]. apply filter_In.
+        split; [apply lookup_In; exact Hl|]. cbn [snd]. rewrite Hu. reflexivity. }
+      destruct (I1 k (Hsub k Hin)) as [[]|Hd]. exact Hd.
+    - destruct (I2 k c IHr Hl s Hs) as [He _]. destruct (I1 s He) as [[]|Hd]. exact Hd. }
+  intros key c sub Hr Hl Hs. exact (proj2 (I2 key c (Hreach key Hr) Hl sub Hs)).
+Qed.
